@@ -74,7 +74,7 @@ KANI = {'K1.default': K1, 'K1.no-default-features': K1MIN, 'K2.first_fit_n3': K2
 
 PROPS = {
     'C01': {
-        'units': ['U11', 'U6', 'U1', 'U2', 'U12', 'U13', 'U14', 'U15', 'U17', 'U20'], 'level': 'other', 'trusted': ['A1', 'A3', 'A4', 'A5', 'A9', 'A10', 'A12', 'A13', 'A14', 'A15', 'A17', 'R15', 'R16'],
+        'units': ['U11', 'U6', 'U1', 'U2', 'U12', 'U13', 'U14', 'U15', 'U17', 'U20', 'U22'], 'level': 'other', 'trusted': ['A1', 'A3', 'A4', 'A5', 'A9', 'A10', 'A12', 'A13', 'A14', 'A15', 'A17', 'R15', 'R16'],
         'proved_part': 'Verus (all inputs), for the whole text: wrap returns lines such that line k is indent_k ++ text[a_k .. b_k] ++ (nothing | a single hyphen), with a_0 == 0, '
                        'b_k <= a_(k+1) (slices in order, never overlapping), everything between two consecutive slices being ASCII spaces followed by at most one line ending, and '
                        'only spaces after the last slice — so nothing but such spaces and line endings is lost, and nothing is duplicated, reordered or invented (U11: wrap, '
@@ -123,7 +123,7 @@ PROPS = {
                        'as are the dependency internals and the Box<dyn Iterator> dispatch of find_words.',
     },
     'C05': {
-        'units': ['U3', 'U11', 'U12', 'U17', 'U16', 'U14', 'U6'], 'level': 'other', 'kani': [K1, K1MIN, K3], 'trusted': ['A1', 'A2', 'A3', 'A4', 'A5', 'A8', 'A9', 'A12', 'A15', 'A16', 'A17', 'R15', 'R16'],
+        'units': ['U3', 'U11', 'U12', 'U17', 'U16', 'U14', 'U6', 'U22'], 'level': 'other', 'kani': [K1, K1MIN, K3], 'trusted': ['A1', 'A2', 'A3', 'A4', 'A5', 'A8', 'A9', 'A12', 'A15', 'A16', 'A17', 'R15', 'R16'],
         'proved_part': 'Verus + Kani: display_width(t) <= t.len() for every text — the soundness lemma of the byte-length shortcut (U3, K1). U11: when wrap_single_line takes the shortcut it '
                        'appends exactly one line, indent-free, borrowed, equal to the paragraph with trailing spaces removed; for a text without the line ending that is wrap\'s whole result. '
                        'U11 again, for first-fit, the built-in splitters and widths up to 2^53: wrap_single_line_slow_path, ENTERED UNDER THE SHORTCUT\'S CONDITION (line.len() < width, no '
@@ -230,7 +230,7 @@ PROPS = {
                        'contracts audited in DESIGN.md §2.8 (A9); custom splitters are opaque (A15).',
     },
     'C13': {
-        'units': ['U3', 'U15', 'U20'], 'level': 'other', 'trusted': ['A2', 'A4', 'A8', 'A9', 'A12', 'A13', 'R16'],
+        'units': ['U3', 'U15', 'U20', 'U22'], 'level': 'other', 'trusted': ['A2', 'A4', 'A8', 'A9', 'A12', 'A13', 'R16'],
         'proved_part': 'Verus lemma: well-formed sequences contribute nothing to display_width, so coloured and stripped words have equal widths. Force-breaking (U15, '
                        'Word::break_apart after closure conversion) cuts only at fresh positions of the word — never inside an escape sequence, none is dropped. The Unicode word finder (U20) '
                        'places every boundary at a position of the original line that is not inside an escape sequence (it works on the stripped text and maps back).',
@@ -246,7 +246,7 @@ PROPS = {
                        'Known finding KF6 lies in it.',
     },
     'C15': {
-        'units': ['U4', 'U18'], 'level': 'other', 'trusted': ['A3', 'A4', 'A12'],
+        'units': ['U4', 'U18', 'U22'], 'level': 'other', 'trusted': ['A3', 'A4', 'A12'],
         'proved_part': 'Verus: NonEmptyLines::next (U4) returns the next non-empty line without its \\n / \\r\\n, the right LineEnding, advances past it; None iff only empty '
                        'lines remain; every slice on a char boundary; terminates. unfill (U18), for every text — the structural half of the statement: the indents consist '
                        'only of prefix characters; the initial indent is a prefix of the first line, the subsequent indent of every later line; the returned text contains no '
@@ -258,7 +258,7 @@ PROPS = {
                        'NonEmptyLines and str::lines is a proved lemma); the round-trip half is relational and checked by bounded exhaustive enumeration (known finding KF2 lies in it).',
     },
     'C16': {
-        'units': ['U21', 'U18'], 'level': 'other', 'trusted': ['A3', 'A4', 'A9', 'A12', 'R15'],
+        'units': ['U21', 'U18', 'U22'], 'level': 'other', 'trusted': ['A3', 'A4', 'A9', 'A12', 'R15'],
         'proved_part': 'Verus, all inputs (U21): refill(x, o2) == fill(unfill(x).text without its final line ending, o2 with the two indents unfill(x) detected) '
                        '++ (o2\'s line ending if one was removed) — the composition in C16\'s equation, with unfill and fill abstract. U18: unfill\'s structural contract '
                        '(indents are prefixes made of prefix characters, no inner line break, line-ending rule).',
@@ -299,7 +299,7 @@ PROPS = {
                        'the line-count and empty-prefix clauses are proved as lemmas over that function.',
     },
     'C20': {
-        'units': ['U5'], 'level': 'proof', 'kani': [K1, K1MIN], 'trusted': ['A2', 'A3', 'A4', 'A11', 'A12', 'R15'],
+        'units': ['U5', 'U22'], 'level': 'proof', 'kani': [K1, K1MIN], 'trusted': ['A2', 'A3', 'A4', 'A11', 'A12', 'R15'],
         'proved_part': 'Verus, all inputs with columns >= 1 (A11): rows = ceil(|ls|/columns); row r = left ++ PROD_c (cell(r + c*rows) ++ sep_c) ++ right with '
                        'cell(i) = ls[i] ++ spaces(cw - dw(ls[i])) (saturating) or spaces(cw), sep_c the middle gap or the remainder padding after the last column, '
                        'cw = max(inner/columns, 1), ls = whatever wrap returns at width cw; no panic. Second sentence: theorem c20_equal_row_widths over that layout — when no line is wider than the column '
@@ -340,6 +340,10 @@ UNIT_TRUSTED = {
     'U24': ['A3', 'A4', 'A6', 'A12', 'R18', 'R19'],
     'K1': ['A2'], 'K2': ['A1'], 'K3': ['A16'],
 }
+_U22 = (' The options reach the library through `impl From<&Options>` / `From<usize>` and the setters: the by-reference conversion copies every option '
+        'unchanged (so f(text, &options) is f(text, options)), the width conversion is Options::new(width), and each setter changes exactly its field (U22).')
+for _pid in ('C01', 'C05', 'C13', 'C15', 'C16', 'C20'):
+    PROPS[_pid]['proved_part'] += _U22
 _ORDER = ['A%d' % i for i in range(1, 18)] + ['R15', 'R16', 'R17', 'R18', 'R19']
 for _pid, _cfg in PROPS.items():
     _t = set(_cfg.get('trusted', []))
